@@ -324,13 +324,11 @@ func runTable(c *TCase) (st tStats, err error) {
 			isStored := idx < len(kvs) && tcmp.Compare(kvs[idx].K, p) == 0
 			switch {
 			case ferr == nil:
-				if idx == len(kvs) || !bytes.Equal(fk, kvs[idx].K) {
-					return st, fmt.Errorf("FindKey(%q, filtered=%v) = %q; the first stored key >= probe is %q", p, filtered, fk, func() []byte {
-						if idx < len(kvs) {
-							return kvs[idx].K
-						}
-						return nil
-					}())
+				if idx == len(kvs) {
+					return st, fmt.Errorf("FindKey(%q, filtered=%v) = %q; no stored key >= probe exists", p, filtered, fk)
+				}
+				if !bytes.Equal(fk, kvs[idx].K) {
+					return st, fmt.Errorf("FindKey(%q, filtered=%v) = %q; the first stored key >= probe is %q", p, filtered, fk, kvs[idx].K)
 				}
 			case ferr == table.ErrNotFound:
 				if idx < len(kvs) && (!filtered || isStored) {
